@@ -350,6 +350,34 @@ def guard_equal_len(a, facts, bi, param_term, explicit=True):
     return None
 
 
+def _same_len_term(x, y):
+    """the same length expression; for `<T as Serializable>::size()` the same T (strip_sites drops the resolved callee)"""
+    if strip_sites(x) != strip_sites(y):
+        return False
+    for u, v in ((x, y),):
+        if u[0] == 'call' and v[0] == 'call':
+            iu = u[4][2] if len(u) > 4 and u[4] else None
+            iv = v[4][2] if len(v) > 4 and v[4] else None
+            return iu is not None and iu == iv
+    return True
+
+
+def guarded_prefix(a, facts, bi, t):
+    """t = `&p[..hi]` (or `&p[0..hi]`) of a slice parameter p, at a block guarded by len(p) == N with hi == N (same constant or the
+    same type-level length): the prefix is the whole parameter.  -> ('param', k) or None"""
+    if not (isinstance(t, tuple) and len(t) == 4 and t[0] == 'addr' and t[1][0] == 'pointee' and t[1][1][0] == 'param' and len(t[2]) == 1):
+        return None
+    sl = t[2][0]
+    if sl[0] != 'slice' or sl[2] is None or not (sl[1] is None or const_of(sl[1]) == 0):
+        return None
+    from .common import len_value
+    g = guard_equal_len(a, facts, bi, t[1][1])
+    hv = len_value(facts, sl[2])
+    if g is not None and hv is not None and g == hv:
+        return t[1][1]
+    return None
+
+
 _UWIDTH = {'u8': 8, 'u16': 16, 'u32': 32, 'u64': 64, 'usize': 64}
 
 
@@ -969,6 +997,28 @@ class Discharger:
         else:
             f = dict(zip(r[4], r[3]))
             lo, hi = f.get('start'), f.get('end')
+        if (lo is None or const_of(lo) == 0) and hi is not None:
+            bp = base[1][1] if base[0] == 'addr' and base[1][0] == 'pointee' and not base[2] else base
+            if bp[0] == 'param' and guarded_prefix(a, facts, bi, ('addr', ('pointee', bp), (('slice', None, hi),), False)) is not None:
+                return 'D6', 'prefix [..N] of a parameter whose length is guarded to be N'
+        # x[m..][..n]: the prefix of a tail.  The tail x[len - k ..] has k bytes; the tail buf[x..] of a Vec allocated as x + k has k
+        if (lo is None or const_of(lo) == 0) and hi is not None and base[0] == 'addr' and base[2] and base[2][-1][0] == 'slice' \
+                and base[2][-1][2] is None and base[2][-1][1] is not None:
+            m = base[2][-1][1]
+            whole = ('addr', base[1], base[2][:-1], base[3]) if base[2][:-1] else (base[1][1] if base[1][0] == 'pointee' else ('addr', base[1], (), base[3]))
+            k = None
+            if m[0] == 'bin' and m[1] == 'Sub' and m[2] == ('len', whole):
+                k = m[3]
+            else:
+                from .common import checked_sub_some
+                cs = checked_sub_some(a, facts, m)
+                if cs is not None and cs[0] == ('len', whole):
+                    k = cs[1]
+            if k is not None and _same_len_term(k, hi):
+                return 'D5', 'prefix [..k] of the tail x[len - k ..], which has k bytes'
+            al = self._vec_alloc_summands(a, ('addr', base[1], base[2][:-1], base[3]), p)
+            if al is not None and strip_sites(al[0]) == strip_sites(m) and _same_len_term(al[1], hi):
+                return 'D8', 'prefix [..k] of the tail buf[x..] of a Vec allocated as x + k'
         n = ref_len(a, facts, base, p)
         nb = sym_bounds(facts, n) if n is not None else None
         lo_b = len_term_bounds(a, facts, lo, p) if lo is not None else (0, 0)
@@ -1049,6 +1099,7 @@ class Discharger:
             dst, src = ('unknown', 'value'), a.arg_val(bi, 0)
         else:
             dst, src = a.arg_val(bi, 0), a.arg_val(bi, 1)
+        src = guarded_prefix(a, facts, bi, src) or src
         if key in self.append_helpers:
             # buf[..len(x)].copy_from_slice(x)
             if dst[0] == 'addr' and dst[2] and dst[2][-1][0] == 'slice' and dst[2][-1][1] is None and dst[2][-1][2] == ('len', src):
